@@ -190,6 +190,9 @@ def c10_script(rng, thorough):
         lines += ["reset", "bij t=2 x=%d secret=%s cseed=%d" % (x, hexbytes(secret("rand")), rng.randrange(1, 10 ** 6))]
     for x, y in ([(1, 2), (2, 3)] if not thorough else [(1, 2), (2, 3), (1, 3), (7, 200), (253, 254)]):
         lines += ["reset", "bij t=3 x=%d y=%d secret=%s cseed=%d" % (x, y, hexbytes(secret("rand")), rng.randrange(1, 10 ** 6))]
+    # independence of the random coefficients (secrecy for every threshold, not only t = 2, 3): recovered from t shares over 8 splits
+    for t in ([2, 3, 5, 9, 10, 17, 33, 64, 129, 255] if not thorough else [2, 3, 4, 5, 8, 9, 10, 11, 16, 17, 32, 33, 34, 64, 65, 100, 128, 129, 200, 254, 255]):
+        lines += ["reset", "indep t=%d n=%d runs=8 secret=%s cseed=%d" % (t, min(255, t + rng.choice([0, 1, 3])), hexbytes(secret("rand")), rng.randrange(1, 10 ** 6))]
     return lines
 
 
